@@ -29,8 +29,8 @@ EXECUTION_COUNTERS = ["nan_fault_runs", "max_functions_runs", "user_exception_ru
 RULE = ("case = (base configuration, fault kind); inside: all fault positions of that kind; a faulted run is non-trivial if the fault was actually reached; distinct key = (case, fault); "
         "monitor_counters: runs per fault kind, expected TOO_FEW runs, budget checks")
 ASSUMPTIONS = ["evaluators are deterministic, so a run with max_functions follows the unlimited run up to the stop", "realization weights are positive in this check (zero weights are C01/C06 territory)"]
-REQUIRED = {"quick": {"nan_fault_runs": 1339, "two_call_fault_runs": 30, "batch_member_fault_runs": 12, "merged_gradient_cases": 20, "two_call_expected_too_few": 8, "expected_too_few_runs": 700, "expected_ok_runs": 400, "max_functions_runs": 450, "user_exception_runs": 400, "evaluator_step_runs": 78, "filter_induced_too_few": 30, "estimator_induced_too_few": 40, "delivery_checked": 700, "max_functions_runs_with_all_failed_evaluations": 4, "__nontrivial__": 2218},
-            "thorough": {"nan_fault_runs": 15000, "two_call_fault_runs": 270, "batch_member_fault_runs": 100, "merged_gradient_cases": 180, "two_call_expected_too_few": 70, "expected_too_few_runs": 7000, "expected_ok_runs": 4000, "max_functions_runs": 4000, "user_exception_runs": 4000, "evaluator_step_runs": 759, "filter_induced_too_few": 300, "estimator_induced_too_few": 400, "delivery_checked": 7000, "max_functions_runs_with_all_failed_evaluations": 40, "__nontrivial__": 26097}}
+REQUIRED = {"quick": {"nan_fault_runs": 1339, "two_call_fault_runs": 30, "batch_member_fault_runs": 12, "merged_gradient_cases": 20, "two_call_expected_too_few": 8, "expected_too_few_runs": 700, "expected_ok_runs": 400, "max_functions_runs": 450, "user_exception_runs": 400, "evaluator_step_runs": 78, "filter_induced_too_few": 30, "estimator_induced_too_few": 40, "delivery_checked": 700, "max_functions_runs_with_all_failed_evaluations": 4, "max_functions_runs_with_a_tolerated_failure_in_every_function_evaluation": 8, "evaluator_step_batch_runs_with_too_few_in_a_later_vector": 80, "__nontrivial__": 2218},
+            "thorough": {"nan_fault_runs": 15000, "two_call_fault_runs": 270, "batch_member_fault_runs": 100, "merged_gradient_cases": 180, "two_call_expected_too_few": 70, "expected_too_few_runs": 7000, "expected_ok_runs": 4000, "max_functions_runs": 4000, "user_exception_runs": 4000, "evaluator_step_runs": 759, "filter_induced_too_few": 300, "estimator_induced_too_few": 400, "delivery_checked": 7000, "max_functions_runs_with_all_failed_evaluations": 40, "max_functions_runs_with_a_tolerated_failure_in_every_function_evaluation": 80, "evaluator_step_batch_runs_with_too_few_in_a_later_vector": 700, "__nontrivial__": 26097}}
 N = {"quick": 154, "thorough": 1400}
 KMAX = {"quick": 8, "thorough": 14}
 METHODS = ["slsqp", "l-bfgs-b", "evaluator_step", "nelder-mead", "cobyla", "differential_evolution", "evaluator_step"]
@@ -40,6 +40,8 @@ def cases(tier, seed):
     for i in range(N[tier]):
         for kind in ("nan", "maxf", "exc"):
             yield {"i": i, "kind": kind}
+    for i in range(N[tier] * 4):
+        yield {"i": i, "kind": "evalbatch"}
 
 
 def gen_base(rng, i):
@@ -242,10 +244,59 @@ def fault_sets(R, P, labels, rng, tier):
     return out
 
 
+def _evalbatch(case, obs):
+    """An evaluator step given a matrix of variable vectors: every row is an evaluation of its own."""
+    from ropt.enums import EventType  # noqa: PLC0415
+    from ropt.enums import OptimizerExitCode as X  # noqa: PLC0415,N817
+    from ropt.plan import OptimizerContext, Plan  # noqa: PLC0415
+
+    rng = rng_for(obs.seed, "c14b", case["i"])
+    R, B, V = int(rng.integers(2, 5)), int(rng.integers(2, 5)), 2
+    rmin = int(rng.integers(0, R + 1))
+    spec = {"V": V, "R": R, "P": 2, "rweights": [1.0] * R, "oweights": [1.0], "n_con": 0, "x0": [0.1, -0.2], "rmin": rmin,
+            "ensemble": {"kind": "hash"}, "nan": []}
+    b_fail = int(rng.integers(-1, B))            # -1: no failure
+    lost = sorted(int(r) for r in rng.choice(R, size=int(rng.integers(1, R + 1)), replace=False)) if b_fail >= 0 else []
+    spec["nan"] = [{"call": 0, "row": b_fail * R + r, "r": r, "p": -1, "col": 0} for r in lost]
+    case["spec"] = spec
+    ev = ens.RecordingEvaluator(spec)
+    ctx = OptimizerContext(evaluator=ev, plugin_manager=ens.plugin_manager())
+    delivered = []
+    ctx.add_observer(EventType.FINISHED_EVALUATION, lambda e: delivered.append(tuple(e.data["results"])))
+    plan = Plan(ctx)
+    step = plan.add_step("evaluator")
+    X_ = rng.uniform(-1, 1, size=(B, V))
+    tag = {"realizations": R, "vectors": B, "realization_min_success": rmin, "failing_vector": b_fail, "failing_realizations": lost}
+    try:
+        code = plan.run_step(step, config=ens.make_config_dict(spec), variables=X_)
+    except Exception as exc:  # noqa: BLE001
+        obs.violation("internal_exception_escaped", exception=repr(exc), **tag)
+        return
+    obs.count("evaluator_step_batch_runs")
+    obs.nontrivial("evalbatch", case["i"])
+    too_few = b_fail >= 0 and (R - len(lost)) < min(rmin, R)
+    if too_few:
+        obs.count("evaluator_step_batch_runs_with_too_few_in_one_vector")
+        if b_fail > 0:
+            obs.count("evaluator_step_batch_runs_with_too_few_in_a_later_vector")
+    want = X.TOO_FEW_REALIZATIONS if too_few else X.EVALUATION_STEP_FINISHED
+    if code != want:
+        obs.violation("exit_code_should_be_too_few" if too_few else "exit_code_too_few_but_enough_successes", got=int(code), want=int(want), **tag)
+        return
+    if len(delivered) != 1 or len(delivered[0]) != B:
+        obs.violation("results_of_the_evaluation_not_delivered_once", events=len(delivered), results=[len(d) for d in delivered], **tag)
+        return
+    missing = [k for k, r in enumerate(delivered[0]) if r.functions is None]
+    if missing != ([b_fail] if too_few else []):
+        obs.violation("function_values_missing_for_the_wrong_vectors", missing=missing, **tag)
+
+
 def run_case(case, obs):
     from ropt.enums import OptimizerExitCode as X  # noqa: PLC0415
     from ropt.results import FunctionResults, GradientResults  # noqa: PLC0415
 
+    if case["kind"] == "evalbatch":
+        return _evalbatch(case, obs)
     rng = rng_for(obs.seed, "c14", case["i"])
     method, spec, tspec = gen_base(rng, case["i"])
     case["method"], case["spec"], case["tspec"] = method, spec, tspec
@@ -416,6 +467,16 @@ def run_case(case, obs):
             spec["nan"] = [{"call": k, "r": r, "p": -1, "col": 0} for k in (1, 2, 4) for r in range(spec["R"])]
             base = execute(method, spec, tspec)
             obs.count("max_functions_runs_with_all_failed_evaluations")
+            if base.exc is not None:
+                obs.violation("baseline_exception", exception=repr(base.exc), method=method)
+                return
+        elif method in ("slsqp", "l-bfgs-b", "tnc", "cg", "bfgs", "newton-cg", "scipy/default") and spec["R"] >= 2 and case["i"] % 2 == 1:
+            # one realization fails in every function evaluation and is tolerated: the run goes on, every evaluation of the functions
+            # counts against the budget, once
+            spec = dict(spec, rmin=spec["R"] - 1, filters=None, omap_f=None, cmap_f=None, estimators=None, omap_est=None, cmap_est=None)
+            spec["nan"] = [{"call": None, "r": 0, "p": -1, "col": 0}]
+            base = execute(method, spec, tspec)
+            obs.count("max_functions_runs_with_a_tolerated_failure_in_every_function_evaluation")
             if base.exc is not None:
                 obs.violation("baseline_exception", exception=repr(base.exc), method=method)
                 return
